@@ -247,7 +247,14 @@ def run_await_each_fault(case, stats):
         return items[i]
 
     coros = [aw(i) for i in range(n)]
-    arg = coros if case["cont"] == "list" else iter(coros)
+    drawn = []
+
+    def feed():
+        for i, c in enumerate(coros):
+            drawn.append(i)
+            yield c
+
+    arg = coros if case["cont"] == "list" else feed()
     got, end = [], {}
 
     async def main():
@@ -275,6 +282,12 @@ def run_await_each_fault(case, stats):
         viols.append({"key": "await_each/exception", "msg": f"{head}: the injected exception surfaced as {end.get('exc')!r}"})
     if events != [("await", i) for i in range(at + 1)] or end.get("after") != "stop":
         viols.append({"key": "await_each/continues-after-failure", "msg": f"{head}: awaited {events}, then {end.get('after')}"})
+    import inspect
+    spoiled = [i for i, c in enumerate(coros) if i > at and inspect.getcoroutinestate(c) != inspect.CORO_CREATED]
+    if spoiled or len(drawn) > at + 1:
+        viols.append({"key": "await_each/touches-what-was-not-asked-for",
+                      "msg": f"{head}: after the failure of awaitable {at}: later awaitables {spoiled} were started or closed, "
+                             f"{len(drawn)} were drawn from the caller's iterator"})
     for c in coros:
         c.close()
     if CTX.foreign:
@@ -399,7 +412,14 @@ def run_await_each(case, stats):
         return items[i]
 
     coros = [aw(i) for i in range(n)]
-    arg = coros if case["cont"] == "list" else iter(coros)
+    drawn = []
+
+    def feed():
+        for i, c in enumerate(coros):
+            drawn.append(i)
+            yield c
+
+    arg = coros if case["cont"] == "list" else feed()
     got = []
 
     async def main():
@@ -425,7 +445,15 @@ def run_await_each(case, stats):
         viols.append({"key": "await_each/laziness", "msg": f"await_each {case}: events {events}, expected {want_events}"})
     if len(got) != len(want) or any(a is not b for a, b in zip(got, want)):
         viols.append({"key": "await_each/items", "msg": f"await_each {case}: wrong items"})
-    for c in coros[min(case["steps"], n):]:
+    # what the consumer never asked for still belongs to the caller: not drawn from its iterator, not closed
+    import inspect
+    left = coros[min(case["steps"], n):]
+    spoiled = [i for i, c in enumerate(left, min(case["steps"], n)) if inspect.getcoroutinestate(c) != inspect.CORO_CREATED]
+    if spoiled or len(drawn) > case["steps"]:
+        viols.append({"key": "await_each/touches-what-was-not-asked-for",
+                      "msg": f"await_each {case}: after {case['steps']} steps and aclose(): awaitables {spoiled} were started or "
+                             f"closed, {len(drawn)} were drawn from the caller's iterator"})
+    for c in left:
         c.close()
     if CTX.foreign:
         viols.append({"key": "await_each/foreign-suspension", "msg": CTX.foreign[0]})
